@@ -47,6 +47,18 @@ CHECKS = {
  "C13": ("exploration", "runtime monitor: three-way agreement oracle between the encoder verdict (any Go integer spelling), the decoder verdict and the reference RFC 9052 section 3.1 rules, per grid cell, through both bucket codecs and every message type",
          "The grid label x value kind x bucket x direction x 10 Go spellings, all IV/Partial IV placements, crit combinations (present, absent, other bucket, wrapping values such as 260 vs int8 4, text labels, non-label entries) and duplicate labels under different spellings is enumerated completely; encode, decode and the rules must agree in every cell, also when the header set is carried by Sign1/Untagged/COSE_Sign (body and signature layers)/Signature/Countersignature and nested countersignatures.",
          "trusted: refcose HeaderRulesGo/HeaderRulesWire (appendix A.2), cross-checked against each other in every cell", "DESIGN.md section 4 C13"),
+ "C14": ("exploration", "runtime monitor: Equal on stdlib keys after the full conversion chain (in memory and through the wire), coordinate lengths read from the serialised key by the reference parser, real sign/verify through Key.Signer/Key.Verifier",
+         "ECDSA keys on the three curves with forced boundary classes (x, y, d with 1-2 (3 in thorough) leading zero bytes found by scalar-multiplication search, extreme d, the x = 0 points) and Ed25519 keys, with and without kid/key_ops/base IV/extra parameters, go through NewKeyFrom* -> MarshalCBOR -> UnmarshalCBOR -> PrivateKey/PublicKey/Signer/Verifier; keys must be Equal, serialised coordinates exactly field-sized, signatures valid under the counterpart verifier and the stdlib.",
+         "trusted: crypto/elliptic scalar multiplication, ecdsa/ed25519 Equal and Verify, refcbor", "DESIGN.md section 4 C14"),
+ "C15": ("exploration", "runtime monitor: one-directional oracle accepted => key rules (reference, on the wire tree), re-encoding fixed-point oracle, and Signer()/Verifier() gate predicate evaluated against wire facts and hand-built values",
+         "The complete wire grid kty x crv x alg x key_ops x presence/length class of x, y, d (1.27 M keys built from real points), structural/byte mutants of valid keys, and the grid of hand-built Key values: every accepted key must satisfy the consistency rules and re-encode to a canonical fixed point; Signer()/Verifier() may succeed only with the needed material, with key_ops (when present) permitting the operation, for asymmetric supported keys, and always for the algorithm the curve fixes.",
+         "trusted: refcose KeyRules (appendix A.6); tags are looked through (the key decoder is tag-tolerant and the property is silent on tags)", "DESIGN.md section 4 C15"),
+ "C16": ("exploration", "runtime monitor: signer output compared with an independent fixed-width encoder for stub-chosen ASN.1 (r,s) and for native signatures; verifier verdicts on manufactured signatures against the oracle 'exactly 2n bytes holding an (r,s) that crypto/ecdsa accepts'",
+         "Generic path: all byte lengths of r and s (top bit set/clear) on the three curves, including DER encodings that are exactly 2n long; native path: thousands of real signatures incl. measured leading-zero cases; verifier: reference signatures with chosen nonces (0/1/2 leading zero bytes in r and/or s, s in {1, 255, n-1, n/2}) accepted as-is and refused with ErrVerification in DER / stripped / extended / truncated / swapped / out-of-range forms and at every length 0..2n+4.",
+         "trusted: crypto/ecdsa.Verify as definition of validity; refcrypto nonce-controlled signer (self-tested against ecdsa.Verify)", "DESIGN.md section 4 C16"),
+ "C17": ("exploration", "runtime monitor: NewSigner/NewVerifier outcomes, error identities and reported algorithms against a reference decision table; 4-way Sign/SignDigest x Verify/VerifyDigest equivalence and cross-hash refusal with shared signers under 16 concurrent workers",
+         "The complete matrix of 31 algorithm ids x 40 key kinds (RSA 1024/2047/2048/3072/4096, four curves, invalid points, Ed25519, foreign crypto.Signer types, wrong Go types) is enumerated for both constructors; for every RSA/ECDSA algorithm x key, signatures from both signing entry points must verify through both verification entry points and the stdlib, and under no other hash.",
+         "trusted: reference decision table written from the property text; stdlib verification", "DESIGN.md section 4 C17"),
 }
 REASON_NOT_BUILT = "check not built yet in this round; no claim is made (see DESIGN.md build order)"
 
